@@ -43,6 +43,10 @@ def _variant(case, rng):
         c["ctor_dict"] = {"token_dictionary": {t: i for i, t in enumerate(tk)}}
         if rng.random() < 0.7:
             p["mask_string"] = "[MASK]"
+    if k == "tree" and rng.random() < 0.5:
+        c["tree_fmt"] = rng.choice(["lil", "csc", "coo"])
+        if rng.random() < 0.7:
+            p["ignored_tokens"] = [sorted({l for t in case["X"] for l in t["labels"]})[0]]
     if k == "tree" and rng.random() < 0.6:
         tk = sorted({l for t in case["X"] for l in t["labels"]})
         c["ctor_dict"] = {"token_dictionary": {t: i for i, t in enumerate(tk)}}
@@ -71,6 +75,9 @@ def corpus():
     return [
         {"kind": "tokencooc", "params": {"window_radii": 1, "mask_string": "[MASK]"}, "X": [["a", "b", "a", "c"]], "Xt": [["a", "zz", "b"]],
          "ctor_dict": {"token_dictionary": {"a": 0, "b": 1}}},
+        {"kind": "tree", "params": {"window_radius": 2, "ignored_tokens": ["x"]}, "tree_fmt": "lil",
+         "X": [{"parents": [None, 0, 1, 2], "labels": ["a", "x", "b", "c"]}, {"parents": [None, 0, 0], "labels": ["a", "b", "c"]}],
+         "Xt": [{"parents": [None, 0, 1], "labels": ["c", "x", "a"]}]},
         {"kind": "infoweight", "params": {}, "fmt": "csc_unsorted", "X": [[1, 0, 2], [0, 3, 1], [2, 2, 0], [1, 1, 1]], "Xt": [[1, 1, 1]]},
         {"kind": "rowdenoise", "params": {"em_threshold": 1e-4}, "fmt": "csr_explicit_zero", "X": [[1, 0, 2], [0, 3, 1], [2, 2, 0], [1, 1, 1]], "Xt": [[1, 1, 1]]},
     ]
@@ -148,6 +155,8 @@ def _mk_input(case, data):
     if kind == "wasserstein" and case.get("input_method") == "lil":
         rows = [np.array([w for w in r if w != 0], dtype=np.float64) for r in data]
         return rows
+    if kind == "tree" and case.get("tree_fmt"):
+        return [(getattr(A, "to" + case["tree_fmt"])(), labels) for A, labels in E.to_input(kind, data)]
     return E.to_input(kind, data)
 
 
@@ -331,7 +340,7 @@ def oracle(case, outs):
     fails = []
     for m in o.get("mutations", []):
         what = m["object"].split(".")[0]
-        fmt = case.get("fmt") or case.get("input_method") or ""
+        fmt = case.get("fmt") or case.get("input_method") or case.get("tree_fmt") or ""
         fails.append(_F(f"c13.{kind}.mutates.{what}" + (f".{fmt}" if fmt else ""),
                         f"{m['call']} modified caller object {m['object']} (params {case['params']}, fmt {fmt})"))
     for l in o.get("leftovers", []):
@@ -367,6 +376,8 @@ def stats(case, outs):
         tags.append("ctor-object")
     if case.get("fmt"):
         tags.append("fmt." + case["fmt"])
+    if case.get("tree_fmt"):
+        tags.append("tree_fmt." + case["tree_fmt"])
     if case.get("fault_at") is not None:
         tags.append("fault-injected")
         if isinstance(o, dict) and o.get("fault_fired"):
